@@ -2,7 +2,7 @@
 import re
 
 from .. import cfg
-from ..lib import calls, closure_sites, cname, error_sites, short, symcalls
+from ..lib import calls, closure_sites, cname, error_sites, has_fact, short, symcalls
 from ..sym import Sym
 
 EVAL = "msi::internal::expr::Expr::eval"
@@ -265,3 +265,97 @@ def join_shape(ctx, rule="JOIN-SHAPE"):
     rc = [c for c in g.closures if any(cname(prog, t) == EVAL for b, t in c.calls())]
     okc = len(rc) == 1 and any(cname(prog, t).endswith("Value::to_bool") and t["dest"]["l"] == 0 for b, t in rc[0].calls())
     ctx.check(okc, rule, "Select: filter keeps rows whose condition is true", "", "Select::exec's retain closure does not return to_bool(condition.eval(row)) directly", g.loc(), fn=g.name, key="%s|Select|filter" % rule)
+
+
+def join_more(ctx, rule="JOIN-SHAPE"):
+    """additional C12 shape rules: no early return around the row loops, complete column-name collection, prefix rule"""
+    from ..lib import symcalls
+    from .. import tables
+    prog = ctx.prog
+    f = prog.fn("msi::internal::query::Join::exec")
+    S = Sym(prog, f)
+    dom = cfg.dominators(f)
+    loops = cfg.natural_loops(f)
+    cs = symcalls(prog, f, S)
+    vs = {v["idx"]: v["name"] for v in prog.adts["msi::internal::query::Join"]["variants"]}
+
+    def arm_of(b):
+        for (e, op, v, g) in S.facts_at(b):
+            if e == "discr(p1)" and op == "==":
+                return vs.get(v)
+        return None
+    for arm in ("Inner", "Left"):
+        res = [c for c in cs if c[1].endswith("Rows::<'a>::new") and arm_of(c[0]) == arm]
+        nexts = [c for c in cs if c[1].endswith("Iterator>::next") and arm_of(c[0]) == arm and re.search(r"into_table_and_values\.1", c[2][0])]
+        outer = None
+        if nexts:
+            first = min(nexts, key=lambda c: len(dom[c[0]]))
+            ls = [(len(bl), h) for h, bl in loops.items() if first[0] in bl]
+            outer = max(ls)[1] if ls else None
+        ok = len(res) == 1 and outer is not None and outer in dom[res[0][0]]
+        ctx.check(ok, rule, "%s: the result is produced only after the row loops" % arm, "", "Join::%s can return a result without running its row loops (%d result constructions): e.g. an early "
+                  "return for an empty side drops the unmatched left rows of a left join" % (arm, len(res)), f.loc(), fn=f.name, key="%s|%s|no-early-return" % (rule, arm))
+    # every Ast variant with sub-expressions is traversed by populate_column_names (and by eval)
+    R2 = "AST-COMPLETE"
+    ctx.rule(R2, "Ast::populate_column_names visits every sub-expression of every Ast variant (one recursive call per Box<Ast> field, the Column arm inserts the name), so name "
+                 "validation sees every column that Ast::eval can look up")
+    a = prog.adts["msi::internal::expr::Ast"]
+    g = prog.fn("msi::internal::expr::Ast::populate_column_names")
+    Sg = Sym(prog, g)
+    sw = tables.first_switch(g)
+    if sw is None:
+        ctx.anchor_missing(R2, "match in populate_column_names")
+    else:
+        t = g.blocks[sw]["term"]
+        targets = {v: tg for v, tg in t["cases"]}
+        for v in a["variants"]:
+            nbox = sum(1 for (fn_, fty) in v["fields"] if "Box<internal::expr::Ast>" in fty)
+            tg = targets.get(v["idx"], t["otherwise"])
+            reach = cfg.reachable(g, tg)
+            rec = [b for b, tt in g.calls() if b in reach and cname(prog, tt) == g.name]
+            ins = [b for b, tt in g.calls() if b in reach and (tt.get("callee") or "").endswith("HashSet::<T, S, A>::insert")]
+            if nbox:
+                ctx.check(len(rec) >= nbox, R2, "Ast::%s: %d sub-expression(s) traversed" % (v["name"], nbox), "", "populate_column_names does not recurse into the %d sub-expression(s) of Ast::%s "
+                          "(%d recursive calls reachable): a column named only there is evaluated without validation and panics in Row's index" % (nbox, v["name"], len(rec)),
+                          g.loc(), fn=g.name, key="%s|%s" % (R2, v["name"]))
+            if v["name"] == "Column":
+                ctx.check(len(ins) == 1, R2, "Ast::Column: name collected", "", "populate_column_names does not insert the name of Ast::Column", g.loc(), fn=g.name, key="%s|Column" % R2)
+    ev = prog.fn("msi::internal::expr::Ast::eval")
+    sw = tables.first_switch(ev)
+    if sw is not None:
+        t = ev.blocks[sw]["term"]
+        for v in a["variants"]:
+            nbox = sum(1 for (fn_, fty) in v["fields"] if "Box<internal::expr::Ast>" in fty)
+            tg = dict((x, y) for x, y in t["cases"]).get(v["idx"], t["otherwise"])
+            rec = [b for b, tt in ev.calls() if b in cfg.reachable(ev, tg) and cname(prog, tt) == ev.name]
+            if nbox:
+                ctx.check(len(rec) >= nbox, R2, "Ast::eval evaluates the operands of %s" % v["name"], "", "Ast::eval reaches %d recursive evaluations for Ast::%s, expected %d" % (len(rec), v["name"], nbox), ev.loc(), fn=ev.name)
+    # Column::with_name_prefix
+    R3 = "NAME-PREFIX"
+    ctx.rule(R3, "Column::with_name_prefix returns the column unchanged iff the prefix is empty, otherwise a copy whose name is \"{prefix}.{name}\" and whose other attributes are the column's own")
+    h = prog.fn("msi::internal::column::Column::with_name_prefix")
+    Sh = Sym(prog, h)
+    hs = symcalls(prog, h, Sh)
+    cl = [c for c in hs if c[1].endswith("Column as std::clone::Clone>::clone") and c[2] == ["&*p1"]]
+    fm = [c for c in hs if c[1].endswith("fmt::format")]
+    nd = [c[2][0] for c in hs if c[1].endswith("new_display")]
+    ok = len(cl) == 1 and len(fm) == 1 and has_fact(Sh, cl[0][0], r"^core::str::<impl str>::is_empty\(&\*p2\)$", True) and has_fact(Sh, fm[0][0], r"^core::str::<impl str>::is_empty\(&\*p2\)$", False) \
+        and len(Sh.bool_facts_at(cl[0][0])) == 1 and nd == ["&*tuple{&p2,&*p1.name}.0", "&*tuple{&p2,&*p1.name}.1"]
+    piece = [c[2][0] for c in hs if c[1].endswith("Arguments::<'a>::new")]
+    ok = ok and len(piece) == 1 and "\\xc0\\x01.\\xc0\\x00" in piece[0]
+    ctx.check(ok, R3, "prefix applied iff non-empty, as prefix.name", "", "with_name_prefix does not return self.clone() exactly for an empty prefix and \"{prefix}.{name}\" otherwise", h.loc(), fn=h.name, key=R3)
+    agg = [s for bl in h.blocks if not bl["cleanup"] for s in bl["stmts"] if s["rhs"]["rv"] == "agg" and (s["rhs"].get("adt") or "").endswith("column::Column")]
+    if agg:
+        names = [x[0] for x in prog.adts["msi::internal::column::Column"]["variants"][0]["fields"]]
+        bad = []
+        for i, o in enumerate(agg[0]["rhs"]["ops"]):
+            v = Sh.val(o)
+            if names[i] == "name":
+                continue
+            if not (v == "*p1.%s" % names[i] or ("Clone>::clone(&*p1.%s)" % names[i]) in v):
+                bad.append((names[i], v[:50]))
+        ctx.check(not bad, R3, "other attributes are copied from the column", "", "with_name_prefix changes attributes: %s" % bad, h.loc(), fn=h.name)
+    bn = prog.fn("msi::internal::column::Column::but_nullable")
+    st = [s for bl in bn.blocks if not bl["cleanup"] for s in bl["stmts"] if s["lhs"]["p"]]
+    ok = len(st) == 1 and [e.get("n") for e in st[0]["lhs"]["p"] if isinstance(e, dict)] == ["is_nullable"] and st[0]["rhs"]["ops"][0].get("int") == 1
+    ctx.check(ok, R3, "but_nullable sets only is_nullable", "", "but_nullable does not set exactly is_nullable = true", bn.loc(), fn=bn.name)
